@@ -10,7 +10,7 @@ import random
 
 from . import common
 
-MODULES = ["CoapVerif.Props.C19", "CoapVerif.Props.C19Wire"]
+MODULES = ["CoapVerif.Props.C19", "CoapVerif.Props.C19Wire", "CoapVerif.Props.C19Xfer"]
 CHUNK = 1 << 16
 
 
@@ -100,6 +100,60 @@ def wire_lines(rng, thorough):
     return L
 
 
+def xfer_lines(rng, thorough):
+    """The codec inside a transfer (Model/BlockOptXfer, Props/C19Xfer; eleventh seeded round): block <num> of a body of <body>
+    bytes through the real block-wise layer - Handle (download), Do (upload), WriteMessage - with the body sizes and block
+    numbers at the edge of the 20-bit block number permanently in the set: bodies of 2^20-1 blocks, of 2^20 blocks exactly,
+    one byte more and less, one block more; block numbers 0xffffe, 0xfffff, 0x100000."""
+    L = []
+    top = 1 << 20
+    for way in ("dl", "ul", "wm"):
+        for szx in range(8):
+            unit = 1024 if szx == 7 else 1 << (szx + 4)
+            for mx in ([1152] if szx < 7 else [1024, 1152, 2048, 4096, 65535]):
+                blk = unit if szx < 7 else mx // 1024 * 1024
+                k = blk // unit
+                bodies = [(top - 1) * unit, (top - 1) * unit + 1, top * unit - 1, top * unit, top * unit + 1, (top + 1) * unit,
+                          (top - 2) * unit + 1, 3 * unit, 2 * unit + 1, 70000, (1 << 32) - 1, 1 << 32, (1 << 32) + 5 * unit]
+                for body in bodies:
+                    last = (body - 1) // unit
+                    nums = {0, 1, k, k + 1, last - 1, last, last + 1, top - 2, top - 1, top, top + 1, top - 1 - k, top - k}
+                    for num in sorted(n for n in nums if 0 <= n < (1 << 27)):
+                        L.append("xfer %s %d %d %d %d" % (way, szx, mx, body, num))
+            for _ in range(120 if thorough else 25):
+                mx = rng.choice([1152, 2048, 4096, 65535]) if szx == 7 else 1152
+                body = rng.choice([rng.randrange(unit + 1, 100000), rng.randrange(unit + 1, top * unit + 1),
+                                   top * unit - rng.randrange(0, 3 * unit), top * unit + rng.randrange(0, 3 * unit)])
+                last = (body - 1) // unit
+                num = rng.choice([rng.randrange(0, last + 1), last - rng.randrange(0, 3), rng.randrange(0, top + 4)])
+                L.append("xfer %s %d %d %d %d" % (way, szx, mx, body, max(0, num)))
+    return L
+
+
+def xfer_verdict(line, o, s):
+    """judge of an `xfer` line: `o` = what the real block-wise layer produced, `s` = Spec/BlockOptXfer's verdict.
+    Returns None (holds / not judged) or (clause, text)."""
+    fo, fs = o.split(), s.split()
+    if not fs or fs[0] == "skip" or o == "skip":
+        return None
+    if fs[0] == "err":
+        if fo[:1] == ["err"]:
+            return None
+        return ("refused-outside-domain", "%s: a block whose number does not fit 20 bits was produced: `%s`" % (line, o))
+    if fs[0] in ("ok", "ok?"):
+        if fo[:1] == ["err"]:
+            if fs[0] == "ok?":
+                return None       # a body of more than 2^20 blocks may be refused at once
+            return ("nothing-inside-the-domain-is-refused",
+                    "%s: the body has at most 2^20 blocks of this size, block %s exists and its number fits 20 bits (RFC value %s, %s "
+                    "bytes) but the block-wise layer refused: `%s`" % (line, line.split()[5], fs[1], fs[2], o))
+        if fo[:1] == ["ok"] and len(fo) == 5 and fo[1] == fs[1] and fo[2] == fs[2] and fo[4] == "data-ok":
+            return None
+        return ("codec-equals-RFC7959", "%s: block produced `%s`, RFC 7959 value and length `%s %s` with the payload at offset num*unit"
+                % (line, o, fs[1], fs[2]))
+    return ("codec-equals-RFC7959", "%s: unreadable verdict `%s`" % (line, s))
+
+
 def digest_lines(thorough):
     L = []
     top = (1 << 32) if thorough else (1 << 24) + 4 * CHUNK
@@ -160,6 +214,14 @@ def compare(ctx, art, lines, impl, model, spec, depth=0):
             ctx.violations.append(common.Violation("no-crash", "C19:" + line, "%s -> %s" % (line, o),
                                                    {"input": [line], "observed": o}))
             continue
+        if line.startswith("xfer "):
+            if model is not None and model[i] != "skip" and model[i] != (" ".join(o.split()[:3]) if o.startswith("ok ") else o):
+                ctx.broken.append(("correspondence", "C19 model vs implementation", "%s: impl `%s` model `%s`" % (line, o, model[i])))
+            bad = xfer_verdict(line, o, spec[i]) if spec is not None else None
+            if bad and len(ctx.violations) < 50:
+                ctx.violations.append(common.Violation(bad[0], "C19:" + " ".join(line.split()[:3]), bad[1],
+                                                       {"input": [line], "observed": o, "expected": spec[i]}))
+            continue
         if model is not None and model[i] != o and not line.startswith("digest"):
             ctx.broken.append(("correspondence", "C19 model vs implementation", "%s: impl `%s` model `%s`" % (line, o, model[i])))
         if spec is not None and norm(spec[i]) != norm(o):
@@ -190,7 +252,7 @@ def compare(ctx, art, lines, impl, model, spec, depth=0):
 def explore(ctx, art):
     rng = random.Random(ctx.seed)
     thorough = ctx.tier == "thorough"
-    lines = edge_lines(rng) + wire_lines(rng, thorough) + digest_lines(thorough)
+    lines = edge_lines(rng) + wire_lines(rng, thorough) + xfer_lines(rng, thorough) + digest_lines(thorough)
     impl, model, spec = run_three(art, lines, par=16 if thorough else 8)
     if impl is None:
         ctx.broken.append(("correspondence", "C19 harness run failed", ""))
@@ -202,7 +264,13 @@ def explore(ctx, art):
     nontrivial = 0
     for line, o in zip(lines, impl):
         f = line.split()
-        if f[0] == "digest":
+        if f[0] == "xfer":
+            evals += 1
+            nontrivial += 1
+            ctx.count("xfer-%s-%s" % (f[1], "block" if o.startswith("ok") else o.split()[0]), 1)
+            if int(f[5]) == (1 << 20) - 1 and o.startswith("ok"):
+                ctx.count("xfer-last-block-number-0xfffff-served", 1)
+        elif f[0] == "digest":
             n = (int(f[3]) - int(f[2])) if f[1] == "dec" else (int(f[5]) - int(f[4]))
             evals += n
             nontrivial += int(o.split()[3]) if len(o.split()) > 3 else 0
@@ -373,7 +441,9 @@ def replay(ctx, rep):
     bad = 0
     for l, a, s in zip(lines, impl, spec):
         print("%s: implementation `%s`  specification `%s`" % (l, a, s))
-        if norm(a) != norm(s):
+        if l.startswith("xfer "):
+            bad += xfer_verdict(l, a, s) is not None
+        elif norm(a) != norm(s):
             bad += 1
     if bad:
         print("VIOLATION property=C19 replay=(replayed) still reproduces")
